@@ -918,6 +918,8 @@ class Translator:
             self.count('R12')
             if name == 'abs': name = 'fabs' if args[0].t == 'double' else 'iabs'
             return E('call', t, fn=name, kind='prim', args=args)
+        if name in ('min', 'max') and not args:
+            return E('lit', 'double', v=(2.2250738585072014e-308 if name == 'min' else 1.7976931348623157e308), text=('2.2250738585072014e-308' if name == 'min' else '1.7976931348623157e308'))
         if name in STD_FUNCS:
             self.count('R9' if name in ('min', 'max', 'swap') else 'R10')
             if name in ('min', 'max') and len(args) == 1 and args[0].k == 'seqctor':
@@ -926,6 +928,10 @@ class Translator:
         if name in ('begin', 'end', 'cbegin', 'cend') and len(args) == 1 and is_seq(args[0].t):
             self.count('R8')
             return E('call', 'iter', fn='seq.' + name.lstrip('c'), kind='prim', args=args)
+        if name == 'min' and not args:
+            return E('lit', 'double', v=2.2250738585072014e-308, text='2.2250738585072014e-308')
+        if name == 'max' and not args and t == 'double':
+            return E('lit', 'double', v=1.7976931348623157e308, text='1.7976931348623157e308')
         if name == 'epsilon' and not args:
             return E('lit', 'double', v=2.220446049250313e-16, text='2.220446049250313e-16')
         return E('call', t, fn='ext:' + str(name), kind='ext', args=args)
